@@ -173,6 +173,7 @@ def shard(args):
         plan += [None, None, ('hload',), ('hresolve',)]
         now = 1700000000
         last = None
+        last_data = None
         expect_log = []
         steps = []
         prev_change_time = None
@@ -199,7 +200,8 @@ def shard(args):
                         v = rng.choice(['ab', 'cd', 'xy', 'zz', 'qq'])
                         data += v.encode().ljust(2, b' ')
                     vals[f['name']] = v
-                changed = last != vals
+                changed = last_data != data      # what the message stores and compares are the raw bytes (unused bits included)
+                last_data = data
                 if changed and prev_change_time == now:
                     stats['same_second_changes'] += 1
                 if changed:
